@@ -236,6 +236,19 @@ Theorem C18_hist_counts_drawn : forall scale edges vals,
   hist_heights scale edges false vals = map (fun c => Some (inject_Z (Z.of_nat c))) (hist_counts edges vals).
 Proof. reflexivity. Qed.
 
+(* every dimension mapped: the histogram dimension has exactly one entry, so each combination is binned as the
+   single value it holds (and the default number of bins is 3); before the repair the construction failed *)
+Theorem C18_hist_all_mapped :
+  hist_dim [] = [[]] /\ default_nbins (length (hist_dim [])) = 3%nat
+  /\ forall s c ls, c_red c = [] -> hist_values s c ls = opt_list (yv s (full_index (ndims_of s) (c_iter c) ls)).
+Proof.
+  split; [reflexivity|]. split; [reflexivity|]. intros s c ls H. unfold hist_values, group. rewrite H. cbn.
+  rewrite !app_nil_r. reflexivity.
+Qed.
+
+Theorem C18_hist_all_mapped_refuted_old : hist_dim_old [] = None /\ forall a r, hist_dim_old (a :: r) = Some (hist_dim (a :: r)).
+Proof. split; reflexivity. Qed.
+
 (* the lines of a concrete call: instance of the loop theorems *)
 Theorem C18_lines_of_call : forall s,
   let c := ctx_of s in
@@ -323,6 +336,19 @@ Example C18_example_hist :
   /\ strictly_increasing [0; 1; 3].
 Proof. vm_compute. repeat split. repeat constructor. Qed.
 
+(* dims (a:2, b:2), both mapped (color = a, marker = b), values 8, 16, 24 (units of 1/8) and one NaN, edges
+   0, 12, 32: three lines, each the density of ONE value: 8/12 in the first bin or 8/20 in the second *)
+Definition ex_hist_all : spec :=
+  mk_spec [2; 2]%nat [Some 8; Some 16; Some 24; None] None None None
+          [mk_mprop P_color [0]%nat None; mk_mprop P_marker [1]%nat None]
+          true []%nat [[0]%nat; [1]%nat] false false 8 [0; 12; 32] true false.
+Example C18_example_hist_all_mapped :
+  c_red (ctx_of ex_hist_all) = []
+  /\ map (fun l => (l_iloc l, map (option_map Qred) (l_pts l))) (infini_hist ex_hist_all)
+     = [([0; 0]%nat, [Some (2 # 3)%Q; Some 0%Q]); ([0; 1]%nat, [Some 0%Q; Some (2 # 5)%Q]);
+        ([1; 0]%nat, [Some 0%Q; Some (2 # 5)%Q])].
+Proof. vm_compute. split; reflexivity. Qed.
+
 (* dividing by the width of the FIRST bin instead (a plausible slip) does not integrate to 1 *)
 Example C18_example_first_width_wrong :
   let cs := hist_counts [0; 1; 3] [0; 2; 2; 5] in
@@ -352,5 +378,7 @@ Print Assumptions C18_none_missing.
 Print Assumptions C18_heatmap_mesh.
 Print Assumptions C18_hist_counts.
 Print Assumptions C18_hist_counts_drawn.
+Print Assumptions C18_hist_all_mapped.
+Print Assumptions C18_hist_all_mapped_refuted_old.
 Print Assumptions C18_lines_of_call.
 Print Assumptions C18_hist_of_call.
